@@ -9,8 +9,10 @@
 
 #include "vh.hpp"
 
+// hostile: the extent vector is handed over as an lvalue and the CALLBACK overwrites that object during the walk
+// (1: zeroes it, 2: enlarges it) -- the box to be visited is the one passed at the call
 template <typename T, std::size_t N>
-static void one(const std::array<uint64_t, N> & ext, const char * why)
+static void one(const std::array<uint64_t, N> & ext, const char * why, int hostile = 0)
 {
     using tuple_t = covfie::array::array<T, N>;
     std::string name = std::string("nd_map<") + vh::tn<T>() + "," + std::to_string(N) + ">";
@@ -32,8 +34,11 @@ static void one(const std::array<uint64_t, N> & ext, const char * why)
                 if (!(a[k] < ext[k])) ++outside;
             }
             seen.push_back(a);
+            if (hostile && seen.size() == (prod + 1) / 2)
+                for (std::size_t k = 0; k < N; ++k) s[k] = hostile == 1 ? (T)0 : (T)(ext[k] + 2);
         },
         s);
+    if (hostile) vh::stat("walks_with_the_extent_object_overwritten_by_the_callback");
     vh::ev();
     vh::stat("callbacks", seen.size());
     bool alleq = true;
@@ -64,6 +69,10 @@ static void sweep(uint64_t B, vh::Rng & rng, unsigned nrandom)
     e.fill(0);
     for (;;) {
         one<T, N>(e, "exhaustive");
+        if (N <= 3 || (e[0] + e[N - 1]) % 2 == 0) {
+            one<T, N>(e, "exhaustive, callback zeroes the caller's extent object half-way", 1);
+            one<T, N>(e, "exhaustive, callback enlarges the caller's extent object half-way", 2);
+        }
         std::size_t k = 0;
         while (k < N && ++e[k] > B) {
             e[k] = 0;
@@ -83,6 +92,7 @@ static void sweep(uint64_t B, vh::Rng & rng, unsigned nrandom)
         // shuffle so the large extent is not always first
         for (std::size_t k = N; k > 1; --k) std::swap(e[k - 1], e[rng.below(k)]);
         one<T, N>(e, "random");
+        if (r % 4 == 0) one<T, N>(e, "random, callback zeroes the caller's extent object half-way", 1 + (int)(r / 4 % 2));
     }
 }
 
